@@ -210,5 +210,31 @@ def run(cx):
         ok = c_arg is not None and local_flows_from(d, c_arg.local, lambda x: x is cap[0]) is not None
     cx.ob("R06.drop", d.id + "|capacity-is-bucket_capacity", bool(ok),
           "Drop must rebuild each bucket Vec with the capacity it was allocated with", d.loc())
+    # len: bucket_capacity(a) for full buckets, (offset of the last allocated slot) + 1 for the last bucket,
+    # where the last allocated slot is index(next_biased_index - 1)
+    if len(frp) == 1:
+        l_arg = op_place(frp[0].args[1])
+        idxc = [t for t in d.calls() if term_calls(t, r"atomic_arena::index$")]
+        from_cap = l_arg is not None and cap and local_flows_from(d, l_arg.local, lambda x: x is cap[0], 8) is not None
+        plus1 = None
+        if l_arg is not None:
+            plus1 = local_flows_from(d, l_arg.local, lambda x: hasattr(x, "rv") and x.rv == "binop" and
+                                     x.j["binop"].startswith("Add") and any(
+                                         (op_const(o) or {}).get("v") == "1" for o in x.ops), 8)
+        idx_ok = False
+        if plus1 is not None and idxc:
+            src = [op_place(o) for o in plus1.ops if op_place(o) is not None]
+            idx_ok = any(local_flows_from(d, q.local, lambda x: x in idxc, 8) is not None for q in src)
+            # and the index() argument is (loaded counter) - 1
+            for t in idxc:
+                a = op_place(t.args[0])
+                sub = local_flows_from(d, a.local, lambda x: hasattr(x, "rv") and x.rv == "binop" and
+                                       x.j["binop"].startswith("Sub") and any(
+                                           (op_const(o) or {}).get("v") == "1" for o in x.ops), 6) if a else None
+                idx_ok = idx_ok and sub is not None
+        cx.ob("R06.drop", d.id + "|len-is-last-offset-plus-one-or-capacity", bool(from_cap and plus1 is not None and idx_ok),
+              "Drop must rebuild the last bucket with len = offset of the last allocated slot + 1 (slot = "
+              "index(next_biased_index - 1)) and full buckets with len = capacity; any other count drops added "
+              "elements twice or never (e.g. at a bucket boundary)", d.loc(frp[0].line))
     nulls = [t for f, t, op in bkt if f is d and op == "store"]
     cx.ob("R06.drop", d.id + "|nulls-bucket", len(nulls) == 1, "Drop must null the bucket pointer it freed", d.loc())
